@@ -39,7 +39,7 @@ Case gen_C19(uint64_t seed, long run, const GenCfg &g, const char *inflight) {
         o.align = r.chance(0.5) ? 4 : 0; o.wsgarbage = wsg;
     };
     std::vector<Op> ops;
-    { Op nw; nw.kind = "new"; nw.slot = 0; nw.mat = 0; double u = r.unit(); nw.reader = u < 0.15 ? "hb" : (u < 0.28 && !cplx) ? "mm" : u < 0.38 ? "rb" : u < 0.48 ? "triple" : ""; /* [cz]readMM reject their own "complex" header (content of C16, not claimed) */ nw.storage = (nw.reader.empty() && r.chance(0.2)) ? 1 : 0;
+    { Op nw; nw.kind = "new"; nw.slot = 0; nw.mat = 0; double u = r.unit(); nw.reader = u < 0.15 ? "hb" : u < 0.28 ? "mm" : u < 0.38 ? "rb" : u < 0.48 ? "triple" : ""; nw.storage = (nw.reader.empty() && r.chance(0.2)) ? 1 : 0;
       // file encodings drawn from their own stream (the main stream, and with it the rest of the lifecycle, is unaffected)
       Rng rf(mix3(seed, 0x1916, (uint64_t)run));
       if (!nw.reader.empty()) {
